@@ -108,7 +108,7 @@ func RunC07(cfg simrt.Config, o world.Opts) *world.Result {
 	h := world.NewHasher()
 	s.Inline(func() {
 		p := progen.Gen(progen.Options{MaxFiles: 4, MaxDefs: 6, Consts: true, ConstRefs: true, Cyclic: true, Unions: true, Exceptions: true,
-			Defaults: true, Dotted: true, Invalid: true, Recursive: true, SameNames: true})
+			Defaults: true, Dotted: true, Invalid: true, Recursive: true, SameNames: true, StructConsts: true})
 		if o.Trace {
 			for _, l := range strings.Split(p.Describe(), "\n") {
 				logf("  | %s", l)
@@ -216,8 +216,8 @@ func RunC07(cfg simrt.Config, o world.Opts) *world.Result {
 }
 
 func first80(s string) string {
-	if len(s) > 240 {
-		return s[:240] + "..."
+	if len(s) > 700 {
+		return s[:700] + "..."
 	}
 	return s
 }
